@@ -76,6 +76,11 @@ func one(c *ev.Ctx, r *rand.Rand, sample bool) {
 	maxDepth := r.Intn(5)
 	o := gen.DocOpts{MaxDepth: maxDepth, MaxLinks: r.Intn(8), MaxBlocks: 1 + r.Intn(5), NoHr: false, LongWords: r.Intn(2) == 0, Unknown: r.Intn(3) == 0, LabelSeq: &seq}
 	doc := gen.AnyDoc(r, o)
+	if r.Intn(25) == 0 && len(doc.Text) > 0 && (doc.Markup == "gemini" || doc.Markup == "plain") {
+		// a long page (35-50 KB of source, several hundred lines): what holds for a note holds for a long article. Only for the two
+		// line-oriented markups: servitor's HTML rendering of documents of this size takes minutes (C06's subject, not this one's)
+		doc.Text = strings.Repeat(doc.Text+"\n\n", 1+(35000+r.Intn(15000))/(len(doc.Text)+2))
+	}
 	n := 2 + r.Intn(7)
 	// (servitor's <pre> and <hr> cost grows with the square of the width - 24 s at 65536 columns - so absurd widths are only
 	// tried on documents without them; no terminal is that wide, the point is the arithmetic on the width)
@@ -154,7 +159,7 @@ func one(c *ev.Ctx, r *rand.Rand, sample bool) {
 	// the way items get their bodies: object.GetMarkup picks the renderer by media type. The same text under each of the four
 	// media types, one after the other in this process, must render like a fresh instance of that renderer on that text -
 	// what was parsed before (same text, other type) must not matter
-	if r.Intn(3) == 0 {
+	if r.Intn(3) == 0 && len(doc.Text) < 5000 {
 		types := []string{"text/html", "text/plain", "text/markdown", "text/gemini"}
 		r.Shuffle(len(types), func(i, j int) { types[i], types[j] = types[j], types[i] })
 		w := widths[0]
